@@ -902,13 +902,19 @@ def r_flag_covers(cx):
                 st = f.term(sb)
                 if st["k"] != "switch":
                     continue
-                dd = mir.strip_refs(f.operand(st["discr"], f.end_point(sb)))
-                neg = False
-                while dd[0] == "un" and dd[1] == "Not":
-                    dd, neg = mir.strip_refs(dd[2]), not neg
-                if dd[0] == "call" and dd[1] == K.PP + "::boolean" and len(dd[2]) > 1 and K._const_key(dd[2][1]) == flag:
-                    zero = [tb for vv, tb in st["targets"] if vv == 0]
-                    tests.append(((zero[0] if zero else None) if neg else st["otherwise"], flag))
+                dd = f.operand(st["discr"], f.end_point(sb))
+                zero = [tb for vv, tb in st["targets"] if vv == 0]
+                if [vv for vv, _ in st["targets"] if vv != 0]:
+                    continue
+                # the side of the branch on which the flag is known to be set (through `!`, `&&` and stored booleans)
+                for truth, succ in ((True, st["otherwise"]), (False, zero[0] if zero else None)):
+                    if succ is None:
+                        continue
+                    for at, tv in guards.implied(f, dd, truth):
+                        at = mir.strip_refs(at)
+                        if tv and at[0] == "call" and at[1] == K.PP + "::boolean" and len(at[2]) > 1 and \
+                                K._const_key(at[2][1]) == flag:
+                            tests.append((succ, flag))
             tests = [x for x in tests if x[0] is not None]
             if not tests:
                 continue
